@@ -447,14 +447,14 @@ _warmed = set()
 
 def warm_up(harness_factory, params):
   """CPython (3.12) instruments a code object for per-opcode events lazily: the first execution that asks for
-  opcode tracing of a function still misses its first events.  One throw-away execution per process and
-  parameter set makes every later execution see the same event stream."""
+  opcode tracing of a function still misses its first events.  Throw-away executions before every exploration that
+  uses opcode tracing make every later execution see the same event stream.  (Not memoised per process: an exploration
+  WITHOUT opcode tracing in between lets the interpreter drop the instrumentation again - seen once as a root schedule
+  that replayed with line events where the first run had opcode events.)"""
   h = harness_factory(params)
   ops = tuple(getattr(h, 'opcode_funcs', ()) or ())
-  key = (os.getpid(), ops)
-  if not ops or key in _warmed:
+  if not ops:
     return
-  _warmed.add(key)
   for _ in range(2):
     run_one(harness_factory, params, [])
 
